@@ -46,13 +46,16 @@ PROPS = {
         min_obligations=50,
         replay_family="c18",
         bounded=[dict(family="c18", what="from_value::<T>(v) never panics, errors are Data, accepted values re-serialize and read back equal",
-                      bound="135 values (atoms, lists, pairs, vectors, alists, improper lists, variant shapes) x 21 target types")],
+                      bound="about 330 values (atoms, lists, pairs, vectors, alists, improper lists, variant shapes) x 37 target types, and 24 values x 2 untagged enums (types that deserialize through deserialize_any; "
+                            "their seven failing witnesses on the unchanged tree are the open known finding D17)")],
         explanation="PROVED (Verus, unbounded in the value): serde-lexpr/src/value/de.rs is extracted from /repo: all 30 deserialize_* methods (the 10 numeric ones per macro "
                     "instantiation), invalid_value, from_value, ConsAccess / ListAccess / VecAccess / MapAccess / VariantAccess / UnitVariantAccess are free of panics - index in "
                     "bounds, idx counter cannot overflow, and the single expect() (MapAccess::next_value_seed) is dead under serde's documented MapAccess protocol (ghost "
                     "has_entry, established by next_key_seed returning Some) - and every error they construct goes through Error::invalid_type -> Error::custom, verified to be "
                     "ErrorImpl::Message, which Error::classify (verified) maps to Category::Data; errors handed on come from the visitor/seed (assumed data, see assumptions) or "
-                    "from the access objects (proved). NOT PROVED: `accepted alternative encodings are normalised` (serialize(x) reads back as x) relates derive-generated "
+                    "from the access objects (proved). Per-method part of `not misread`: on a value of the documented kind each deserialize_* method hands exactly that payload to the "
+                    "matching visit_* and returns its result, and the access objects deliver every element in order (the acceptance clauses shared with C14; the rejection clauses are "
+                    "C14 only - C18 allows alternative encodings). NOT PROVED: `accepted alternative encodings are normalised` (serialize(x) reads back as x) relates derive-generated "
                     "Serialize and Deserialize impls of an arbitrary T: BOUNDED stand-in on every run.",
         assumptions=[
             "serde's Visitor / DeserializeSeed / Deserialize implementations (serde, serde_derive) are modelled by traits DeVisitorBase/DeVisitor/DeSeed/DeDeserialize whose methods "
